@@ -23,14 +23,15 @@ def install():
     C.shadow_module(FL)
 
 
-def h_flood(x, n, ordered, ntags=3, twin=False):
+def h_flood(x, n, ordered, ntags=3, twin=False, us=False):
     T, D, L, evs = [], [], [], []
     for i in range(n):
         k = x.zint("k%d" % i, 0, T_MAX_MS)
         m = x.ranged("m%d" % i, 0, D_MAX_MS)
         l = x.zint("l%d" % i, 0, ntags - 1)
         T.append(k * 1000)
-        D.append(m * 1000)
+        # us: durations of any whole number of microseconds (events then end between two milliseconds)
+        D.append(m * 1000 + (x.zint("u%d" % i, 0, 999) if us else 0))
         L.append(l)
     for i in range(n):
         for j in range(i + 1, n):
@@ -39,7 +40,7 @@ def h_flood(x, n, ordered, ntags=3, twin=False):
         if ordered and i + 1 < n:
             x.assume(T[i] < T[i + 1])
     p = x.zint("p", 0, P_MAX_US)
-    evs = [mk_event(x, T[i], D[i], {"k": x.wrap(L[i])}, id=i) for i in range(n)]
+    evs = [mk_event(x, T[i], D[i], {"k": x.wrap(L[i])}, id=i, dur_aligned=not us) for i in range(n)]
     out = FL.flood(evs, x.seconds_us(p))
     if twin:
         return [("reached-len%d" % len(out), False)], [len(out)]
@@ -70,6 +71,18 @@ def h_flood(x, n, ordered, ntags=3, twin=False):
         ("input-not-modified", And([And(ev_start(evs[i]) == T[i], ev_dur(evs[i]) == D[i], zv(evs[i].data["k"]) == L[i], evs[i].id == i) for i in range(n)])),
         ("output-not-aliasing-input", all(all(o is not e for e in evs) for o in out)),
     ]
+    if us:
+        # with sub-millisecond ends the exact obligations above are known not to hold (known_findings.json: the
+        # algorithm moves timestamps, which have millisecond resolution, to instants that may lie between two
+        # milliseconds); whatever goes beyond that — a full millisecond or more — is still a violation
+        W = 1000
+        mid_short = Or([And(neighbours(i, j), T[i] + D[i] + W <= t, t < T[j] - W, T[j] - (T[i] + D[i]) <= p - W) for i in range(n) for j in range(n) if i != j])
+        deep_long = Or([And(neighbours(i, j), T[i] + D[i] + W <= t, t < T[j] - W, T[j] - (T[i] + D[i]) > p + W) for i in range(n) for j in range(n) if i != j])
+        obl += [
+            ("outputs-overlap-by-less-than-1ms", And([Or(Eo[a] - So[b] < W, Eo[b] - So[a] < W) for a in range(len(out)) for b in range(a + 1, len(out))])),
+            ("short-gaps-closed-except-within-1ms-of-their-edges", Implies(mid_short, outc)),
+            ("long-gaps-intact-except-within-1ms-of-their-edges", Implies(deep_long, Not(outc))),
+        ]
     obs = [len(out)] + [[So[j], Eo[j], Lo[j]] for j in range(len(out))]
     return obl, obs
 
@@ -82,6 +95,8 @@ def harnesses(tier):
     else:
         spec = [(1, False, 60), (2, False, 60), (3, False, 300), (4, False, 1800), (4, True, 600), (5, True, 1800), (6, True, 3600)]
     hs.append((Harness(PROP, "flood-n2-float-semantics", C.with_floats(h_flood), dict(n=2, ordered=False), "flood on 2 events with IEEE double semantics for any float arithmetic, durations whole ms < 2^17 in binary range pieces", split_depth=7, fresh_solver=True), 600))
+    for n in ([2, 3] if tier == "quick" else [2, 3, 4]):
+        hs.append((Harness(PROP, "flood-n%d-microsecond-durations" % n, h_flood, dict(n=n, ordered=(n > 3), us=True), "flood on %d events whose durations are any whole number of microseconds (instants stay on milliseconds, as Event keeps them)" % n, split_depth=7), 1800))
     for n, ordered, budget in spec:
         hs.append((Harness(PROP, "flood-n%d-%s" % (n, "sorted" if ordered else "anyorder"), h_flood, dict(n=n, ordered=ordered),
                            "flood on %d non-overlapping events given %s" % (n, "in chronological order" if ordered else "in any order"), split_depth=7, cross_solver=2), budget))
@@ -100,7 +115,7 @@ def meta(chk, tier):
     ]
     chk.stubs = ["aw_core.models.int -> sym_int", "aw_transform.flood.timedelta -> sym_timedelta (exact)", "logging disabled (f-string arguments are still evaluated)"]
     chk.assumptions = [
-        "millisecond granularity of timestamps and durations (Event floors timestamps to ms on every assignment; sub-ms durations are outside the claim)",
+        "the main harnesses use whole-millisecond durations; durations of any whole number of microseconds are covered by the *-microsecond-durations harnesses, where the exact obligations non-overlapping / short-gaps-closed are known findings (overlaps and unclosed gaps of less than 1 ms) and the 1 ms-tolerant forms must hold",
         "overlapping inputs are outside the property's quantifier",
         "pre-sorted variants rely on the any-order variants for the sort itself",
     ]
